@@ -23,7 +23,7 @@ var protoCalls = map[string]bool{
 	"UnregisterListener": true, "RegisterListener": true, "Stop": true, "Start": true, "Close": true,
 }
 
-func chanName(c *Ctx, e ast.Expr) string {
+func protoChanName(c *Ctx, e ast.Expr) string {
 	s := c.Src(e)
 	if strings.HasSuffix(s, ".C") {
 		return "taskChan"
@@ -34,7 +34,7 @@ func chanName(c *Ctx, e ast.Expr) string {
 	return s
 }
 
-func calleeName(c *Ctx, e ast.Expr) string {
+func protoCalleeName(c *Ctx, e ast.Expr) string {
 	switch x := e.(type) {
 	case *ast.Ident:
 		return x.Name
@@ -55,15 +55,15 @@ func (w *protoWalker) emit(s string) { w.ops = append(w.ops, s) }
 func (w *protoWalker) commOf(s ast.Stmt) string {
 	switch x := s.(type) {
 	case *ast.SendStmt:
-		return "send " + chanName(w.c, x.Chan)
+		return "send " + protoChanName(w.c, x.Chan)
 	case *ast.ExprStmt:
 		if u, ok := x.X.(*ast.UnaryExpr); ok && u.Op == token.ARROW {
-			return "recv " + chanName(w.c, u.X)
+			return "recv " + protoChanName(w.c, u.X)
 		}
 	case *ast.AssignStmt:
 		if len(x.Rhs) == 1 {
 			if u, ok := x.Rhs[0].(*ast.UnaryExpr); ok && u.Op == token.ARROW {
-				return "recv " + chanName(w.c, u.X)
+				return "recv " + protoChanName(w.c, u.X)
 			}
 		}
 	}
@@ -80,12 +80,12 @@ func (w *protoWalker) expr(e ast.Expr, prefix string) {
 			return false
 		case *ast.UnaryExpr:
 			if x.Op == token.ARROW {
-				w.emit(".recv " + leanStr(chanName(w.c, x.X)))
+				w.emit(".recv " + leanStr(protoChanName(w.c, x.X)))
 			}
 		case *ast.CallExpr:
-			name := calleeName(w.c, x.Fun)
+			name := protoCalleeName(w.c, x.Fun)
 			if name == "close" && len(x.Args) == 1 {
-				w.emit(".close " + leanStr(chanName(w.c, x.Args[0])))
+				w.emit(".close " + leanStr(protoChanName(w.c, x.Args[0])))
 				return false
 			}
 			// arguments first (closures passed to Update run inside the call)
@@ -126,7 +126,7 @@ func (w *protoWalker) stmt(s ast.Stmt) {
 			w.stmts(cl.(*ast.CommClause).Body)
 		}
 	case *ast.SendStmt:
-		w.emit(".send " + leanStr(chanName(w.c, x.Chan)))
+		w.emit(".send " + leanStr(protoChanName(w.c, x.Chan)))
 	case *ast.ReturnStmt:
 		for _, r := range x.Results {
 			w.expr(r, "")
@@ -185,8 +185,8 @@ func protoOps(c *Ctx, rel, recv, name string) (string, bool) {
 	return "[" + strings.Join(w.ops, ", ") + "]", true
 }
 
-// makeChanCap finds `field: make(chan T[, N])` in a composite literal of fn and returns N (0 = unbuffered).
-func makeChanCap(c *Ctx, fd *ast.FuncDecl, field string) (int, bool) {
+// protoMakeChanCap finds `field: make(chan T[, N])` in a composite literal of fn and returns N (0 = unbuffered).
+func protoMakeChanCap(c *Ctx, fd *ast.FuncDecl, field string) (int, bool) {
 	cap, found := 0, false
 	if fd == nil {
 		return 0, false
@@ -209,8 +209,8 @@ func makeChanCap(c *Ctx, fd *ast.FuncDecl, field string) (int, bool) {
 	return cap, found
 }
 
-// writeLeanWithImport is LeanFile.Write plus an import line (the generated module uses the Op type).
-func writeLeanWithImport(c *Ctx, l *LeanFile, file, imp string) {
+// protoWriteLeanWithImport is LeanFile.Write plus an import line (the generated module uses the Op type).
+func protoWriteLeanWithImport(c *Ctx, l *LeanFile, file, imp string) {
 	txt := "-- GENERATED by /verif/go/cmd/extract from /repo's working tree. Do not edit.\nimport " + imp + "\nnamespace " + l.ns + "\n" +
 		strings.Join(l.lines, "\n") + "\nend " + l.ns + "\n"
 	p := filepath.Join(c.Out, file)
@@ -256,11 +256,11 @@ func init() {
 		emit("removeWallet", "masswallet/wallet.go", "WalletManager", "RemoveWallet")
 		// capacities
 		nf := c.Func(nh, "", "NewNtfnsHandler")
-		qb, ok1 := makeChanCap(c, nf, "queueBlock")
-		qt, ok2 := makeChanCap(c, nf, "queueMsgTx")
-		ss, ok3 := makeChanCap(c, nf, "sigSuspend")
-		sr, ok4 := makeChanCap(c, nf, "sigResume")
-		qq, ok5 := makeChanCap(c, nf, "quit")
+		qb, ok1 := protoMakeChanCap(c, nf, "queueBlock")
+		qt, ok2 := protoMakeChanCap(c, nf, "queueMsgTx")
+		ss, ok3 := protoMakeChanCap(c, nf, "sigSuspend")
+		sr, ok4 := protoMakeChanCap(c, nf, "sigResume")
+		qq, ok5 := protoMakeChanCap(c, nf, "quit")
 		l.Def("queueBlockCap", "Nat", fmt.Sprint(qb))
 		l.Def("queueMsgTxCap", "Nat", fmt.Sprint(qt))
 		l.Def("sigSuspendCap", "Nat", fmt.Sprint(ss))
@@ -311,7 +311,7 @@ func init() {
 		iGo2 := strings.Index(startOps, `.call "go worker"`)
 		before := len(sites) == 1 && assignedIn["initTaskChan"] && iInit >= 0 && iGo > iInit && iGo2 > iInit
 		l.Def("taskChanInitBeforeGo", "Bool", fmt.Sprint(before))
-		writeLeanWithImport(c, l, "Proto.lean", "MW.Model.ProtoSkel")
+		protoWriteLeanWithImport(c, l, "Proto.lean", "MW.Model.ProtoSkel")
 		c.check("proto.skeleton", allFound, "an anchored function of the goroutine protocol was not found")
 		c.check("proto.capacities", ok1 && ok2 && ok3 && ok4 && ok5 && ok6, "channel allocations in NewNtfnsHandler / MaxWaitingTaskNum not found in the expected form")
 		c.check("proto.taskChanCap", capOK && busyOK, "NewWalletTaskChan / IsBusy no longer have the expected form")
